@@ -360,6 +360,20 @@ def r11_paths(text, m, ed, fns=()):
                     ed.add(toks[q].s, toks[q].s, "pub ", "R11", prio=-4)
 
 
+def r10_peekable(text, m, ed):
+    """`s.chars().peekable()` -> `PeekChars::new(s)`, `s.char_indices().peekable()` ->
+    `PeekCharIndices::new(s)`; field types renamed accordingly. The shims (shims/chars.rs) are thin
+    wrappers that delegate 1:1; `next` / `peek` keep their names."""
+    for mm in re.finditer(r"([\w\.]+)\.chars\(\)\.peekable\(\)", m):
+        ed.add(mm.start(), mm.end(), f"PeekChars::new({mm.group(1)})", "R10")
+    for mm in re.finditer(r"([\w\.]+)\.char_indices\(\)\.peekable\(\)", m):
+        ed.add(mm.start(), mm.end(), f"PeekCharIndices::new({mm.group(1)})", "R10")
+    for mm in re.finditer(r"(?:std::iter::)?Peekable<\s*(?:std::str::)?Chars<([^>]*)>\s*>", m):
+        ed.add(mm.start(), mm.end(), f"PeekChars<{mm.group(1)}>", "R10")
+    for mm in re.finditer(r"(?:std::iter::)?Peekable<\s*(?:std::str::)?CharIndices<([^>]*)>\s*>", m):
+        ed.add(mm.start(), mm.end(), f"PeekCharIndices<{mm.group(1)}>", "R10")
+
+
 def r13_le_bytes(text, m, ed):
     """`x.to_le_bytes()` / `T::from_le_bytes(b)`: std returns `[u8; size_of::<T>()]`, a const
     expression this Verus cannot match in an assume_specification. Rewritten to the shim trait
